@@ -1188,6 +1188,15 @@ class KmipEngine(object):
         else:
             return False
 
+    @staticmethod
+    def _format_date(value):
+        # Dates come from clients as 64-bit integers; not every value is a
+        # calendar date the platform can format.
+        try:
+            return time.asctime(time.gmtime(value))
+        except (OverflowError, ValueError, OSError):
+            return str(value)
+
     def _is_valid_date(self, date_type, value, start, end):
         date_type = date_type.value.lower()
 
@@ -1198,9 +1207,9 @@ class KmipEngine(object):
                         "Failed match: object's {} ({}) is less than "
                         "the starting {} ({}).".format(
                             date_type,
-                            time.asctime(time.gmtime(value)),
+                            self._format_date(value),
                             date_type,
-                            time.asctime(time.gmtime(start))
+                            self._format_date(start)
                         )
                     )
                     return False
@@ -1209,9 +1218,9 @@ class KmipEngine(object):
                         "Failed match: object's {} ({}) is greater than "
                         "the ending {} ({}).".format(
                             date_type,
-                            time.asctime(time.gmtime(value)),
+                            self._format_date(value),
                             date_type,
-                            time.asctime(time.gmtime(end))
+                            self._format_date(end)
                         )
                     )
                     return False
@@ -1221,9 +1230,9 @@ class KmipEngine(object):
                         "Failed match: object's {} ({}) does not match "
                         "the specified {} ({}).".format(
                             date_type,
-                            time.asctime(time.gmtime(value)),
+                            self._format_date(value),
                             date_type,
-                            time.asctime(time.gmtime(start))
+                            self._format_date(start)
                         )
                     )
                     return False
